@@ -521,7 +521,12 @@ def replay(path):
     cin = os.path.join(wd, "case.ndjson")
     open(cin, "w").write(json.dumps(rp["case"]) + "\n")
     tr = os.path.join(wd, "t.ndjson")
-    ec.eng_seq(bd, tr, mode="replay", **{"in": cin})
+    # under an address-space limit: a runaway recursion in the code under test must not take the machine down
+    p = _limited(bd, "eng_seq", ["--out", tr, "--mode", "replay", "--cyc", "1", "--in", cin], mem_kb=4_000_000, timeout=300)
+    if p.returncode != 0:
+        print(f"VIOLATION property={PID} replay={path}")
+        print(f"   the process replaying the history died (rc={p.returncode}): {(p.stdout or '')[-300:]}")
+        return 1
     res, _ = ec.validate(tr, tr + ".result.json")
     bad = [v for v in res["viol"] if v["kind"] in KINDS]
     if bad:
